@@ -1,10 +1,21 @@
-"""C02 Indexing equivalence — see DESIGN.md §4/C02."""
+"""C02 Indexing equivalence — see DESIGN.md §4/C02.
+
+Deductive part: Array.__getitem__ ≡ NumPy indexing of the decoded matrix for every backend key the BASIC adapter
+can send (int in range; slice with arbitrary start/stop and positive step), all n, W, records_per_chunk.
+Bounded part (labelled): the xarray adapter contract (T6) and the end-to-end statement on small images.
+"""
 from pyvc.harness import run_cases
 
-CASES_QUICK = [(tc, k0, k1) for tc in ("IU2",) for k0 in ("int", "slice_sym", "slice_none") for k1 in ("int", "slice_sym", "slice_none")]
-CASES_THOROUGH = [(tc, k0, k1) for tc in ("IU2", "C*8") for k0 in ("int", "slice_sym", "slice_none") for k1 in ("int", "slice_sym", "slice_none")]
+KINDS = ("int", "slice_sym", "slice_none")
+CASES_QUICK = [("IU2", k0, k1) for k0 in KINDS for k1 in KINDS]
+CASES_THOROUGH = [(tc, k0, k1) for tc in ("IU2", "C*8") for k0 in KINDS for k1 in KINDS]
 
 
 def run(ses):
+    from props import arraychain
+
     cases = CASES_QUICK if ses.tier == "quick" else CASES_THOROUGH
     run_cases(ses, "props.arraychain", "case_getitem", cases)
+    arraychain.trusted(ses)
+    arraychain.bounded_getitem(ses, "C02")
+    arraychain.bounded_xarray_indexing(ses, "C02")
